@@ -382,9 +382,11 @@ RelocAlphabet ==       \* C09: even-sized statements; absolute (#a, @#b, .word a
     W(<<A>>), W(<<B, Bin("-", B, A)>>), W(<<Dot, Bin("+", Bin("-", B, A), Bin("-", B, A))>>), Blkw(Num(2)),
     Lab("a"), Lab("b"), Const("c", Bin("+", A, Num(2))), W(<<Sym("c")>>), Rep(2, << I1("movr", A), W(<<Dot>>) >>), Inc(1), Inc(2),
     LabX("g"), I1("movr", Sym("x")), I1("br", Sym("x")), Inc(3) }
-RelocIncFiles == << [name |-> "i1", body |-> << LabX("x"), I1("movr", Sym("g")), W(<< Sym("x"), Bin("-", Sym("g"), Sym("x")) >>), I1("mova", Sym("g")) >>],
+RelocCoreAlphabet ==   \* C09: few statements, all programs of 4: includes referring to each other behind / in front of code and labels
+  { I0("nop"), Inc(1), Inc(2), Inc(3), LabX("g"), Lab("a"), I1("movr", A), W(<<A>>), I1("movr", Sym("x")) }
+RelocIncFiles == << [name |-> "i1", body |-> << I0("nop"), LabX("x"), I0("nop"), I1("movr", Sym("g")), I1("mova", Sym("g")) >>],    \* x: a plain code label at a non-zero offset of its file, never used absolutely here
                     [name |-> "i2", body |-> << I0("nop"), Inc(1), I1("movr", Sym("x")), I1("movi", Sym("x")) >>],
-                    [name |-> "i3", body |-> << LabX("y"), I1("movr", Sym("x")), I1("br", Sym("x")), W(<< Bin("-", Sym("y"), Sym("x")) >>) >>] >>
+                    [name |-> "i3", body |-> << I0("nop"), LabX("y"), I1("movr", Sym("x")), I1("br", Sym("x")) >>] >>
 
 OrderAlphabet ==       \* C03: definition chains / diamonds / uses in every operand and directive position
   { Const("a", Bin("+", B, Num(1))), Const("b", Bin("*", Sym("c"), Num(2))), Const("c", Num(5)), Const("c", Bin("-", Sym("l"), Sym("m"))),
